@@ -5,7 +5,7 @@ Structural lemmas about the `reconcile` model shared by `Properties/C11`,
 concatenates the plans of the children; every alpha/beta change is emitted by
 `handleDisagreement` at the node it is about), and what they carry.
 -/
-namespace Mutagen.Proofs.Reconcile
+namespace Mutagen.Proofs.ReconcileShape
 open Mutagen.Model
 
 /-! ## Plans -/
@@ -182,4 +182,4 @@ theorem reconcile_descend (mode : Mode) (toAlpha : Bool) (q : Path) :
     have := ih (path ++ [m]) _ _ _ hrest c hcp hrel'
     simpa [List.append_assoc, getPath] using this
 
-end Mutagen.Proofs.Reconcile
+end Mutagen.Proofs.ReconcileShape
